@@ -3,6 +3,7 @@ package e2
 import (
 	"crypto/sha256"
 	"fmt"
+	"strings"
 
 	ds "github.com/bronlabs/bron-crypto/pkg/base/datastructures"
 	"github.com/bronlabs/bron-crypto/pkg/base/serde"
@@ -79,6 +80,16 @@ func c01Dkls23(env *SymEnv, pol Policy, quorum []sharing.ID, msg []byte) {
 		cos[id] = c
 	}
 	fail := func(round int, id sharing.ID, err error) {
+		// the message validators refuse a zero blinding difference ψ = φ − χ and identity points
+		// Γ_U, Γ_V, Pk: each happens with probability 1/q in an honest run (the success path must be
+		// reachable: MustReach)
+		txt := fmt.Sprintf("%+v", err)
+		for _, mz := range []string{"invalid psi", "invalid gamma u", "invalid gamma v", "invalid Pk", "cannot create partial signature"} {
+			if strings.Contains(txt, mz) {
+				env.Reach("measure-zero refusal: " + mz)
+				return
+			}
+		}
 		env.Check(fmt.Sprintf("C01.dkls23/no honest cosigner aborts (round %d)", round), false, fmt.Sprintf("cosigner %d: %v", id, err))
 	}
 	r1b := map[sharing.ID]*signing_bbot.Round1Broadcast[sG, sF, sF]{}
